@@ -478,13 +478,13 @@ def expand_aliases(fn_node, expr, depth=3):
                     if isinstance(x, ast.Name) and isinstance(x.ctx, ast.Store):
                         assigns.setdefault(x.id, []).append(n.value if (len(n.targets) == 1 and t is x) else None)
                     if isinstance(x, ast.Attribute) and isinstance(x.ctx, ast.Store):
-                        stored_attrs.add(x.attr)
+                        stored_attrs.add(norm(x))
         elif isinstance(n, (ast.AugAssign, ast.AnnAssign)):
             for x in ast.walk(n.target):
                 if isinstance(x, ast.Name):
                     assigns.setdefault(x.id, []).append(None)
                 if isinstance(x, ast.Attribute) and isinstance(x.ctx, ast.Store):
-                    stored_attrs.add(x.attr)
+                    stored_attrs.add(norm(x))
         elif isinstance(n, (ast.For, ast.AsyncFor, ast.With, ast.AsyncWith, ast.comprehension)):
             tg = [n.target] if hasattr(n, 'target') else [i.optional_vars for i in n.items if i.optional_vars is not None]
             for t in tg:
@@ -496,8 +496,8 @@ def expand_aliases(fn_node, expr, depth=3):
         e = v
         while True:
             if isinstance(e, ast.Attribute):
-                if e.attr in stored_attrs:
-                    return False
+                if norm(e) in stored_attrs:
+                    return False          # this very attribute is rebound in the function
                 e = e.value
             elif isinstance(e, ast.Subscript) and isinstance(e.slice, (ast.Constant, ast.UnaryOp)):
                 e = e.value
